@@ -106,6 +106,14 @@ def records(fn):
     return out
 
 
+def records_of(stmts):
+    class _F:
+        pass
+    f = _F()
+    f.body = stmts
+    return records(f) or [('empty', [], None)]
+
+
 def _key(rec):
     kind, comps, _n = rec
     try:
@@ -148,6 +156,17 @@ def classify(ref_rec, cur_rec):
     muts = []
     for r, c in zip(ref_rec[1], cur_rec[1]):
         v, d = treecmp.compare(c, r, names=True)
+        if v == 'different' and ref_rec[0] in ('if', 'while'):
+            neg = ast.UnaryOp(op=ast.Not(), operand=c)
+            if treecmp.compare(neg, r)[0] == 'equal' or treecmp.compare(c, ast.UnaryOp(op=ast.Not(), operand=r))[0] == 'equal':
+                rn, cn = ref_rec[2], cur_rec[2]
+                same_body = False
+                try:
+                    same_body = bool(rn.body) and bool(cn.body) and _key(records_of([rn.body[0]])[0]) == _key(records_of([cn.body[0]])[0])
+                except Exception:
+                    same_body = False
+                if same_body:       # (negated test with swapped branches is the same statement)
+                    v, d = 'mutation', 'condition negated'
         if v == 'equal':
             continue
         if v == 'mutation':
@@ -167,6 +186,7 @@ def diff_function(ref_fn, cur_fn):
     rk, ck = [_key(x) for x in R], [_key(x) for x in C]
     sm = difflib.SequenceMatcher(a=rk, b=ck, autojunk=False)
     pairs, unpaired = [], 0
+    deleted = []
     for tag, i1, i2, j1, j2 in sm.get_opcodes():
         if tag == 'equal':
             continue
@@ -175,6 +195,7 @@ def diff_function(ref_fn, cur_fn):
                 pairs.append((R[i1 + k], C[j1 + k]))
         else:
             unpaired += max(i2 - i1, j2 - j1)
+            deleted.extend(R[i1:i2])
     findings = []
     # names that are bound to each other somewhere in the function (x = x0): replacing one by the other may be an alias
     aliases = set()
@@ -192,6 +213,23 @@ def diff_function(ref_fn, cur_fn):
                 v = 'different'
         if v != 'equal':
             findings.append([v, d, r, c])
+    # a deleted accumulation: an augmented assignment of the reference whose target is not written by ANY statement of the
+    # current function any more (so it was not rewritten as x = x + ..., moved, or renamed with its uses)
+    cur_written = set()
+    for rec in C:
+        if rec[0] == 'assign' or rec[0].startswith('aug'):
+            for t in rec[1][:-1]:
+                cur_written.add(src(t).replace(' ', ''))
+    cur_names = set()
+    for rec in C:
+        for comp in rec[1]:
+            cur_names |= _names(comp)
+    for rec in deleted:
+        if rec[0].startswith('aug'):
+            tgt = src(rec[1][0]).replace(' ', '')
+            base = tgt.split('[')[0].split('.')[0]
+            if tgt not in cur_written and base in cur_names and not any(w.split('[')[0] == tgt.split('[')[0] for w in cur_written):
+                findings.append(['mutation', 'accumulation `%s` deleted' % _show(rec), rec, rec])
     # guard 1: consistent renaming -- every 'variable replaced' finding is explained by one substitution that also
     # changes a binding site (assignment target, loop variable, parameter)
     ren = [f for f in findings if f[0] == 'mutation' and f[1].startswith('variable ')]
